@@ -198,7 +198,8 @@ check("C16",
       "Trusted: TLC/SANY 1.8.0, Json module, reduction mod p=46199; alpha_snap for the rounding paths: sparse-LU outputs "
       "are snapped to denominators 2^12*840 within 1e-8, KPM outputs to 2^-10 within 200*atol (instances are built so the "
       "true solution has such denominators; a value that cannot be snapped is a violation). KPM convergence for "
-      "arbitrary spectra is not modelled. The second-quantised solver is not covered here (needs the Fock model).",
+      "arbitrary spectra is not modelled. The second-quantised solver is judged as an operator identity on a Fock window "
+      "(Trace_Fock, kinds sylv / sylvdiag) with non-degenerate levels on the window.",
       "TLA+ residual equations checked by TLC on solver outputs (trace validation of direct solver calls)", "DESIGN.md §4 C16")
 check("C17",
       "Projector.tla models the object graph of ComplementProjector (cached transpose/adjoint/conjugate companions as the "
